@@ -1340,5 +1340,356 @@ CORRS = [
          "the model predicts the layout from the classes entering DesignateClassPackages"),
 ]
 
-ORACLES = []
-FINDINGS = {}
+
+# ----------------------------------------------------------------------------
+# ORACLES — the property on the implementation alone
+# ----------------------------------------------------------------------------
+def first_diff(fa, fb):
+    for k in sorted(set(fa) | set(fb)):
+        if fa.get(k) != fb.get(k):
+            la, lb = (fa.get(k) or "").split("\n"), (fb.get(k) or "").split("\n")
+            for n, (x, y) in enumerate(itertools.zip_longest(la, lb)):
+                if x != y:
+                    return f"{k}:{n + 1}: {x!r} != {y!r}"
+            return f"{k}: differs"
+    return "same"
+
+
+def e2e_runs(a, tier="quick"):
+    """(label, result) of the same generation along every axis of the property"""
+    schemas, options = a["schemas"], a["options"]
+    yield "api/run1", S.generate_full("api", schemas, options, None)
+    yield "api/run2", S.generate_full("api", schemas, options, None)
+    for sh in (11, 12, 13):
+        yield f"api/setorder{sh}", S.generate_full("api", schemas, options, sh)
+    yield "cli-flags", S.generate_full("cli", schemas, options, None)
+    yield "cli-config-file", S.generate_full("file", schemas, options, None)
+    for w in workers():
+        r = w.call({"cmd": "generate", "route": "api", "schemas": schemas, "options": options, "shuffle": None, "files": True})
+        yield f"api/hashseed{w.seed}", r
+
+
+def check_e2e(a):
+    ref = None
+    for label, r in e2e_runs(a):
+        if ref is None:
+            ref = (label, r)
+            continue
+        if r.get("digest") != ref[1].get("digest") or r.get("err") != ref[1].get("err"):
+            if "files" in r and "files" in ref[1]:
+                where = first_diff(ref[1]["files"], r["files"])
+            else:
+                where = f"{ref[1].get('err')} vs {r.get('err')}: {r.get('msg', '')[:80]}"
+            return f"generation differs between {ref[0]} and {label}: {where}"
+    return None
+
+
+def covered_e2e(a, msg):
+    if has_seqleak_pattern(a["schemas"], a["options"]) and "sequence" in msg:
+        return "C12-F1"
+    o = a["options"]
+    if o.get("generic_collections") and o.get("format__frozen") and "cli-flags" in msg:
+        return "C12-F2"
+    if o.get("include_header") and "This file was generated by xsdata" in msg:
+        return "C12-F3"
+    return None
+
+
+def gen_oracle_e2e(rng, tier):
+    yield {"schemas": SEQLEAK_SCHEMA, "options": SEQLEAK_OPTIONS}
+    for i in range(12 if tier == "quick" else 120):
+        schemas = make_schema_set(rng)
+        options = e2e_options(rng, rng.choice(["clusters", "namespace-clusters", "filenames", "namespaces", "single-package"]))
+        if rng.random() < 0.15:
+            options["generic_collections"] = True
+        yield {"schemas": schemas, "options": options}
+
+
+def reference_scc(edges):
+    """mutual reachability classes by transitive closure (independent of xsdata)"""
+    vs = [k for k, _ in edges]
+    adj = {k: set(ws) for k, ws in edges}
+    reach = {v: {v} for v in vs}
+    changed = True
+    while changed:
+        changed = False
+        for v in vs:
+            new = set(reach[v])
+            for u in list(reach[v]):
+                new |= adj.get(u, set())
+            if new != reach[v]:
+                reach[v] = new
+                changed = True
+    comps = []
+    for v in vs:
+        c = sorted(u for u in vs if u in reach[v] and v in reach.get(u, ()))
+        if c not in comps:
+            comps.append(c)
+    return sorted(comps)
+
+
+def check_scc(a):
+    import random as _r
+
+    keys = [k for k, _ in a["edges"]]
+    if any(w not in keys for _k, ws in a["edges"] for w in ws):
+        return None  # dangling edge: KeyError for every order, nothing to compare
+    ref = reference_scc(a["edges"])
+    rr = _r.Random(len(keys))
+    for t in range(4):
+        vo = list(keys)
+        rr.shuffle(vo)
+        e = [[k, rr.sample(ws, len(ws))] for k, ws in a["edges"]]
+        o = local_scc({"edges": e, "vorder": vo})
+        if "err" in o:
+            return f"strongly_connected_components raised {o['err']} for vertex order {vo}"
+        got = sorted(sorted(c) for c in o["ok"])
+        if got != ref:
+            return f"components {got} for vertex order {vo}, mutual reachability classes are {ref}"
+    return None
+
+
+def vary_classes(a, k):
+    """the same classes presented in another order, under another set order"""
+    import random as _r
+
+    rr = _r.Random(k)
+    b = dict(a)
+    cs = [dict(c) for c in a["classes"]]
+    rr.shuffle(cs)
+    for c in cs:
+        c["deps"] = rr.sample(c["deps"], len(c["deps"]))
+        if "circ" in c:
+            c["circ"] = rr.sample(c["circ"], len(c["circ"]))
+    b["classes"] = cs
+    b["seed"] = (a.get("seed") or 0) + 101 * k
+    if "registry" in a:
+        b["registry"] = rr.sample(a["registry"], len(a["registry"]))
+    return b
+
+
+def as_map(o):
+    if "err" in o:
+        return o
+    v = o["ok"]
+    if isinstance(v, list):
+        return {"ok": sorted(map(json.dumps, v))}
+    if "assign" in v:
+        return {"ok": {"assign": sorted(map(json.dumps, v["assign"])), "modules": sorted(map(json.dumps, v["modules"]))}}
+    return o
+
+
+def check_variants(local):
+    def check(a):
+        ref = as_map(local(a))
+        for k in (1, 2, 3):
+            b = vary_classes(a, k)
+            got = as_map(local(b))
+            if got != ref:
+                if "err" in got and "err" in ref:
+                    continue  # which of several errors is raised first may depend on the order
+                return f"result changes with class/set order (variant {k}): {json.dumps(ref)[:200]} vs {json.dumps(got)[:200]}"
+        return None
+
+    return check
+
+
+def check_sort_types(a):
+    """sort_types(native_types) must not depend on the set order of native_types"""
+    tb = type_by_name()
+    qn = qname_by_type_name()
+    names = []
+    for n in a["types"]:
+        if n not in names:
+            names.append(n)
+    outs = set()
+    for seed in (1, 2, 3, 4, 5, 6):
+        order = [t.__name__ for t in S.shuffle_order(seed, [tb[n] for n in names])]
+        o = local_sort_types({"types": order, "via": "attr", "seed": seed, "attr_types": [qn[n][0] for n in names]})
+        outs.add(json.dumps(o.get("ok", o)))
+    if len(outs) > 1:
+        return f"sort_types(native_types) depends on the set order: {sorted(outs)[:2]}"
+    return None
+
+
+def covered_sort_types(a, msg):
+    return "C12-F5" if {"bytes", "object"} <= set(a["types"]) else None
+
+
+def check_seqnum(a):
+    ref = local_seqnum(a)
+    for off, mul in ((16 * 977, 1), (16 * 31337, 3)):
+        b = dict(a)
+        b["attrs"] = relabel(a["attrs"], lambda x: mul * x + off)
+        if a.get("base_raw"):
+            b["base"] = [None if s is None else mul * s + off for s in a["base"]]
+        got = local_seqnum(b)
+        if got != ref:
+            return f"sequence numbers depend on id(): {json.dumps(ref)[:160]} vs {json.dumps(got)[:160]}"
+    return None
+
+
+def covered_seqnum(a, msg):
+    # the base class' numbers were still raw ids when read (base looked up while being finalised)
+    return "C12-F1" if a.get("base_raw") and any(s and abs(s) > 10**6 for s in a["base"]) else None
+
+
+def gen_oracle_seqnum(rng, tier):
+    for a in gen_seqnum(rng, tier):
+        yield a
+    a = {
+        "attrs": [
+            {"skip": False, "path": [["s", 140000000160, 1, 5]], "min": 1, "max": 1, "sequence": None, "choice": None, "group": None},
+            {"skip": False, "path": [["s", 140000000160, 1, 5]], "min": 1, "max": 1, "sequence": None, "choice": None, "group": None},
+        ],
+        "base": [140000000320],
+        "base_raw": True,
+    }
+    yield a
+
+
+def check_process_order(a):
+    import random as _r
+
+    ref = local_process_order(a)
+    names = [n for n, _t in a["uris"]]
+    for k in (1, 2, 3):
+        b = dict(a)
+        b["glob_order"] = _r.Random(k).sample(names, len(names))
+        got = local_process_order(b)
+        if got != ref:
+            return f"processing order depends on the directory listing order: {ref} vs {got} (listing {b['glob_order']})"
+    return None
+
+
+def check_config_routes(a):
+    o = local_config_routes(a)
+    if "err" in o:
+        return None
+    r = o["ok"]
+    for x, y in (("api", "cli"), ("api", "file")):
+        if r[x] != r[y]:
+            d = {k: (r[x][k], r[y][k]) for k in r[x] if r[x][k] != r[y][k]}
+            return f"configuration differs between routes {x} and {y}: {d}"
+    return None
+
+
+def covered_config_routes(a, msg):
+    opts = {d: v for d, _k, v in a["options"]}
+    if opts.get("generic_collections") and opts.get("format__frozen") and "generic_collections" in msg:
+        return "C12-F2"
+    return None
+
+
+ORACLES = [
+    Oracle("scc-is-mutual-reachability", gen_scc, check_scc, from_ops=("gen.scc",)),
+    Oracle("toposort-order-independent", gen_toposort,
+           lambda a: (lambda r, q: None if r == q else f"toposort_flatten depends on dict order: {r} vs {q}")(
+               local_toposort(a), local_toposort({"data": list(reversed([[k, list(reversed(v))] for k, v in a["data"]]))})),
+           from_ops=("gen.toposort",)),
+    Oracle("clusters-order-independent", gen_clusters, check_variants(local_clusters), from_ops=("gen.clusters",)),
+    Oracle("layout-order-independent", gen_layout, check_variants(local_layout), from_ops=("gen.layout",)),
+    Oracle("resolver-order-independent", gen_resolver, check_variants(local_resolver), from_ops=("gen.resolver",)),
+    Oracle("sort-types-set-order-independent", gen_sort_types, check_sort_types, covered=covered_sort_types,
+           from_ops=("gen.sort_types",)),
+    Oracle("sequence-numbers-id-independent", gen_oracle_seqnum, check_seqnum, covered=covered_seqnum,
+           from_ops=("gen.seqnum",)),
+    Oracle("source-order-listing-independent", gen_process_order, check_process_order, from_ops=("gen.process_order",)),
+    Oracle("config-routes-agree", gen_config_routes, check_config_routes, covered=covered_config_routes,
+           from_ops=("gen.config_routes",)),
+    Oracle("generation-byte-identical", gen_oracle_e2e, check_e2e, covered=covered_e2e, from_ops=("gen.e2e",),
+           adapt=lambda op, a: {"schemas": a["schemas"], "options": a["options"]}),
+]
+
+
+# ----------------------------------------------------------------------------
+# FINDINGS — replay of known defects on the real code
+# ----------------------------------------------------------------------------
+def finding_seq_leak():
+    r1 = S.generate_full("api", SEQLEAK_SCHEMA, SEQLEAK_OPTIONS, None)
+    if "files" not in r1:
+        return False, f"generation failed: {r1.get('err')} {r1.get('msg')}"
+    nums = [int(x) for f in r1["files"].values() for x in re.findall(r'"sequence": (\d+)', f)]
+    big = [n for n in nums if n > 10**6]
+    msg = check_e2e({"schemas": SEQLEAK_SCHEMA, "options": SEQLEAK_OPTIONS})
+    return bool(big), f"sequence numbers in generated code: {nums}; {msg or 'runs agree'}"
+
+
+def finding_cli_generic_frozen():
+    a = {"options": [[d, k, (True if d in ("generic_collections", "format__frozen") else None)] for d, k, _o, _s in S.cli_options()]}
+    msg = check_config_routes(a)
+    return bool(msg), msg or "routes agree"
+
+
+def finding_header_timestamp():
+    import datetime
+
+    from xsdata.formats.dataclass.generator import DataclassGenerator
+    from xsdata.models.config import GeneratorConfig
+
+    S.install_pipeline_patches()
+    cfg = GeneratorConfig()
+    cfg.output.include_header = True
+    h = DataclassGenerator(cfg).render_header()
+    m = re.search(r"on (\d{4}-\d\d-\d\d \d\d:\d\d:\d\d)", h)
+    if not m:
+        return False, f"no timestamp in header: {h!r}"
+    t = datetime.datetime.fromisoformat(m.group(1))
+    close = abs((datetime.datetime.now() - t).total_seconds()) < 5
+    return close, f"header embeds the wall clock: {m.group(1)}"
+
+
+def finding_cwd_cache():
+    import tempfile
+
+    from xsdata.utils.package import module_path
+
+    d1, d2 = tempfile.mkdtemp(prefix="c12cwd"), tempfile.mkdtemp(prefix="c12cwd")
+    cwd = os.getcwd()
+    try:
+        os.chdir(d1)
+        p1 = module_path(f"c12probe{os.getpid()}.mod")
+        os.chdir(d2)
+        p2 = module_path(f"c12probe{os.getpid()}.mod")
+    finally:
+        os.chdir(cwd)
+        for d in (d1, d2):
+            os.rmdir(d)
+    stale = str(p2).startswith(os.path.realpath(d1)) or str(p2).startswith(d1)
+    return stale, f"after chdir to {d2} module_path still returns {p2}"
+
+
+def finding_sort_types_tie():
+    from xsdata.codegen.models import Attr, AttrType
+    from xsdata.formats.dataclass.filters import Filters
+    from xsdata.models.config import GeneratorConfig
+    from xsdata.models.enums import DataType, Tag
+
+    attr = Attr(
+        tag=Tag.ATTRIBUTE,
+        name="x",
+        default="YWJj",
+        types=[
+            AttrType(qname=str(DataType.BASE64_BINARY), native=True),
+            AttrType(qname=str(DataType.ANY_SIMPLE_TYPE), native=True),
+        ],
+    )
+    attr.restrictions.format = "base64"
+    f = Filters(GeneratorConfig())
+    seen = {}
+    try:
+        for seed in range(1, 9):
+            S.set_shuffle(seed)
+            seen.setdefault(f.field_default_value(attr), []).append([t.__name__ for t in attr.native_types])
+    finally:
+        S.set_shuffle(None)
+    return len(seen) > 1, f"default literal by set order of native_types: { {k: v[0] for k, v in seen.items()} }"
+
+
+FINDINGS = {
+    "C12-F1": finding_seq_leak,
+    "C12-F2": finding_cli_generic_frozen,
+    "C12-F3": finding_header_timestamp,
+    "C12-F4": finding_cwd_cache,
+    "C12-F5": finding_sort_types_tie,
+}
